@@ -46,6 +46,8 @@ CHAR_METHODS = {
     "is_ascii_control": lambda c: c < 0x20 or c == 0x7F,
     "is_ascii_punctuation": lambda c: 0x21 <= c <= 0x2F or 0x3A <= c <= 0x40 or 0x5B <= c <= 0x60 or 0x7B <= c <= 0x7E,
     "is_ascii_graphic": lambda c: 0x21 <= c <= 0x7E,
+    # Unicode general category Cc: C0, DEL and the C1 controls U+0080..U+009F
+    "is_control": lambda c: c < 0x20 or 0x7F <= c <= 0x9F,
 }
 
 
